@@ -164,7 +164,7 @@ TTick ==
   IN /\ ev.e = "tick"
      /\ Chk("C13") => ((blockEnds /\ full.ni[1] = 0 /\ full.ni[2] >= ALPHA /\ full.ni[2] <= NMAX)
                          => (ev.ni = << 0, wantNi >> /\ ev.hto # Unset /\ ev.hto >= HelloIntervalMin(wantNi)))
-     /\ (Primary = "C13" /\ blockEnds => TLCSet(2, TLCGet(2) \cup {<< "tick", full.r, full.ni, begunEff >>}))
+     /\ (Primary = "C13" /\ blockEnds => TLCSet(2, TLCGet(2) \cup {<< "tick", full.r, full.ni, begunEff, 0 >>}))
      /\ Chk("C14") => /\ mustEnd => (ev.ms = 0 /\ ev.ctc = 0 /\ ev.live = << >>)
                       /\ mustNot => (ev.ms = full.ms /\ survivors \subseteq LiveSet(ev))
      /\ Chk("C16") => TableConsistent(ev) /\ (~mustEnd /\ mustNot => LiveSet(ev) = survivors)
@@ -213,6 +213,9 @@ TGlue ==
   LET ev == Log[l] IN
   /\ ev.e = "glue"
   /\ Chk("XGLUE") => GlueRefines(ev)
+  \* a Hello heard through the frame path counts once (unless the closing tick just ended the block)
+  /\ Chk("C13") => ((ev.op = OpHello /\ full.r[1] = 0 /\ full.r[2] < 65535 /\ full.es = 1)
+                      => ev.r \in {<< 0, full.r[2] + 1 >>, << 0, 0 >>})
   \* the frame path feeds the opcode to the mapping engine; leaving an active state empties the table
   /\ Chk("C14") => /\ ev.ms \in MappingStep(full.ms, ev.op, ev.now \div 1000 - lastIn[1], mT)
                    /\ (full.ms # 0 /\ ev.ms = 0) => ev.live = << >>
@@ -230,6 +233,9 @@ THeard ==
   LET ev == Log[l] IN
   /\ ev.e = "heard"
   /\ Chk("C12") => ev.hellos = << >>
+  \* C13: r is the number of Hellos heard - every one of them counts
+  /\ Chk("C13") => ((full.r[1] = 0 /\ full.r[2] + ev.n < 65536) => ev.r = << 0, full.r[2] + ev.n >>)
+  /\ (Primary = "C13" => TLCSet(2, TLCGet(2) \cup {<< "heard", full.r, ev.n >>}))
   /\ full' = FullOf(ev) /\ tbl' = LiveSet(ev)
   /\ l' = l + 1 /\ UNCHANGED << mT, sT, lastFrame, lastHello, lastNi, lastIn >>
 
@@ -254,7 +260,7 @@ TBand ==
                       /\ want >= ALPHA /\ want <= NMAX
                       /\ ev.interval >= HelloIntervalMin(want)
                       /\ mono          \* same prior count: hearing more never shortens the next interval
-     /\ (Primary = "C13" => TLCSet(2, TLCGet(2) \cup {<< ev.prev, ev.r, ev.begun >>}))
+     /\ (Primary = "C13" => TLCSet(2, TLCGet(2) \cup {<< "band", ev.prev, ev.r, ev.begun >>}))
      /\ lastNi' = << ev.prev, ev.begun, ev.r, ev.interval >>
      /\ l' = l + 1 /\ UNCHANGED << tbl, mT, sT, full, lastFrame, lastHello, lastIn >>
 
